@@ -51,12 +51,29 @@ func (cs ClientState) GetPrefix() exported.Prefix {
 	return commitmenttypes.MerklePrefix{KeyPrefix: cs.ContractAddress}
 }
 
+// checkInitialConsensusState: the consensus state installed with a client is the one of the client's
+// own header. The state root is what the header index is looked up by when the record is pruned: a
+// root that is not the header's makes pruning fail on every update once the record has expired.
+func (cs ClientState) checkInitialConsensusState(state exported.ConsensusState) error {
+	consState, ok := state.(*ConsensusState)
+	if !ok {
+		return sdkerrors.Wrapf(clienttypes.ErrInvalidConsensus, "invalid consensus state type %T, expected %T", state, &ConsensusState{})
+	}
+	if !bytes.Equal(consState.Root, cs.Header.ToEthHeader().Root.Bytes()) || !consState.Height.EQ(cs.Header.Height) {
+		return sdkerrors.Wrap(clienttypes.ErrInvalidConsensus, "consensus state is not the one of the client's header")
+	}
+	return nil
+}
+
 func (cs ClientState) Initialize(
 	ctx sdk.Context,
 	cdc codec.BinaryCodec,
 	store sdk.KVStore,
 	state exported.ConsensusState,
 ) error {
+	if err := cs.checkInitialConsensusState(state); err != nil {
+		return err
+	}
 	header := cs.Header
 	headerBytes, err := cdc.MarshalInterface(&header)
 	if err != nil {
@@ -73,6 +90,9 @@ func (cs ClientState) UpgradeState(
 	store sdk.KVStore,
 	state exported.ConsensusState,
 ) error {
+	if err := cs.checkInitialConsensusState(state); err != nil {
+		return err
+	}
 	header := cs.Header
 	headerBytes, err := cdc.MarshalInterface(&header)
 	if err != nil {
